@@ -13,6 +13,8 @@ def run(tier, seed):
     run_pool(ctx, cfg, ["New", "Add", "IAdd", "AddRefused", "IAddRefused", "ForeignRefused", "Copy"], VIEW, emb,
              budget=60000 if tier == "quick" else 400000)
     extra(ctx, tier)
+    from props import collection
+    collection.run_part(ctx, tier)       # HistogramCollection: create / add / sum / normalize_* / copy / round trip / refusals
     ctx.assumptions = ["contents are exact (integer counts or dyadic weights)", "pool of 3 histograms, histories <= MaxDepth calls"]
     return ctx.finish("TLC enumerates all histories of New/Copy/Add/IAdd and the refused variants over a pool of 3 histograms built from "
                       "the seeds; after every call the public snapshot of ALL live objects is compared with the pool (operands "
